@@ -254,6 +254,11 @@ class Interp(object):
         if head == "Fn":
             from .histlib import make_fn          # typed abstract callable Fn[A1,...,R]
             return make_fn(self, args, name, st)
+        if head == "OpaqueFn":
+            # a field / parameter holding SOME callable nothing else is known about (e.g. a bound method installed by a
+            # callee whose contract only proves `callable(self.f)`): callable() is true, calling it and deciding its
+            # identity with anything but itself are out-of-subset
+            return Fun("opaque-callable", name="%s#%d" % (name, next(self.bound)))
         if head == "Def":
             # a field / parameter holding a module-level function of the repository (Def[lena.pkg.module.name]): calls go
             # through that function's contract (or its real AST if the contract is inline=True)
@@ -338,6 +343,9 @@ class Interp(object):
     def store(self, st, ref, newterm):
         """write a new term at a (possibly nested) list / Val position"""
         cell = st.heap[ref.cid]
+        if ref.cid in st.notes.get("embedded_lists", ()):
+            # (lib_acc2.list_value: the list was stored into a context BY VALUE; a later change would not be seen there)
+            raise Unsupported("change of a python list after it was stored into a context dictionary (snapshot)")
         if ref.cid in st.notes.get("unknown_alias", ()):
             if not (self.c is not None and self.c.ghost.get("alias_store") and isinstance(cell, ValCell)
                     and ref.cid in st.notes.get("alias_epoch", {})):
@@ -460,6 +468,10 @@ class Interp(object):
         if isinstance(v, Bool):
             return v.t
         if isinstance(v, Num):
+            if v.sort == "Int" and lit_int(v.t) is not None and self.c is not None and self.c.ghost.get("fold_literals"):
+                # Contract(ghost={"fold_literals": True}): the truth value of an integer literal (len() of a list display)
+                # is decided here, so that the branch python never takes is not explored
+                return TRUE if lit_int(v.t) != 0 else FALSE
             return NOT(EQ(v.t, I(0) if v.sort == "Int" else R(0)))
         if isinstance(v, NoneV):
             return FALSE
@@ -565,8 +577,10 @@ class Interp(object):
                 return AND(EQ(a.present, b.present), IMP(a.present, EQ(a.t, b.t)))
             raise Unsupported("== between %r and %r" % (a, b))
         if isinstance(a, Num) and isinstance(b, Num):
-            if getattr(a, "exact", False) or getattr(b, "exact", False):
+            if getattr(a, "exact", False) or getattr(b, "exact", False) or getattr(self, "concrete_while", 0) \
+                    or (self.c is not None and self.c.ghost.get("fold_literals")):
                 # the size of a set of concrete strings (lib_split) against a literal: decided here (no infeasible fork)
+                # (also inside a while loop that runs on concrete values, stmts.while_concrete)
                 la, lb = lit_int(a.t), lit_int(b.t)
                 if la is not None and lb is not None:
                     return TRUE if la == lb else FALSE
@@ -652,6 +666,8 @@ class Interp(object):
             return isinstance(x, Str) or (isinstance(x, Opaque) and x.sort == "Key")
         if (stringy(a) and isinstance(b, (Num, Bool))) or (stringy(b) and isinstance(a, (Num, Bool))):
             return FALSE          # a string never equals a number
+        if (stringy(a) and (isinstance(b, Tup) or sb)) or (stringy(b) and (isinstance(a, Tup) or sa)):
+            return FALSE          # a string never equals a tuple / a list
         raise Unsupported("== between %r and %r" % (a, b))
 
     def v_eq(self, st, v, other):
@@ -724,6 +740,13 @@ class Interp(object):
             return EQ(a.t, b.t)      # identity of abstract objects = equality of their denotation ids
         if isinstance(a, Bool) and isinstance(b, Bool):
             return EQ(a.t, b.t)
+        if ((isinstance(a, Num) and isinstance(b, Bool)) or (isinstance(a, Bool) and isinstance(b, Num))) \
+                and self.c is not None and self.c.ghost.get("numbers_are_not_bools"):
+            # opt-in typing assumption of the case: its Int / Real values are ints and floats, none of them is the object
+            # True / False (`scale is True` for a number)
+            return FALSE
+        if any(isinstance(x, Fun) and x.kind == "opaque-callable" for x in (a, b)):
+            raise Unsupported("`is` with a callable nothing is known about (OpaqueFn)")
         if isinstance(a, Fun) and isinstance(b, Fun):
             if a.kind != b.kind:
                 return FALSE
@@ -996,7 +1019,7 @@ class Interp(object):
                 kcat_facts(self, s, r, a, b, ta, tb)
             return [(s, Opaque(r))]
         if isinstance(op, ast.Mod) and isinstance(a, Str):
-            return [(s, Str("<formatted>"))]
+            return [(s, Opaque(self.reg.new("formatted", "Key")))]      # an unknown string
         x, y = self.num(a), self.num(b)
         if isinstance(op, ast.Add):
             return [(s, Num(ADD(x, y)))]
@@ -1072,8 +1095,19 @@ class Interp(object):
     def contains(self, s, a, b):
         if isinstance(b, Str) and isinstance(a, Str):
             return TRUE if a.s in b.s else FALSE
+        if isinstance(b, Opaque) and b.sort == "Key" and (isinstance(a, Str) or (isinstance(a, Opaque) and a.sort == "Key")):
+            # `sub in s` for a symbolic string s: a function of the two strings (substring test; uninterpreted, except
+            # that the empty string is a substring of every string)
+            f = self.reg.ufun("kcontains", ["Key", "Key"], "Bool")
+            ax = T("(forall ((k Key)) (! (%s k %s) :pattern ((%s k %s))))" % (f, self.reg.key("").s, f, self.reg.key("").s), "Bool")
+            if not any(x.s == ax.s for x in self.reg.axioms):
+                self.reg.axioms.append(ax)
+            return T("(%s %s %s)" % (f, b.t.s, self.key_term(a).s), "Bool")
         if isinstance(b, Ref):
             cell = s.heap[b.cid]
+            if type(cell).__name__ == "ValSetCell":
+                from .lib_acc2 import valset_contains          # a set of context values (pyvc/lib_acc2.py)
+                return valset_contains(self, s, b, a)
             if type(cell).__name__ == "KeyMapCell" and not b.path:
                 from .keymap import km_has
                 return km_has(self, s, b, a)
@@ -1144,7 +1178,7 @@ class Interp(object):
         return out
 
     def ev_Lambda(self, e, st):
-        return [(st, Fun("lambda", node=e, env=dict(st.env)))]
+        return [(st, Fun("lambda", node=e, env=dict(st.env), defmod=self.mod))]     # (globals: those of the defining module)
 
     def ev_Attribute(self, e, st):
         out = []
@@ -1209,6 +1243,8 @@ class Interp(object):
             av = attr_value(self, v, attr)
             if av is not None:
                 return [(s, av)]
+        if isinstance(v, Opaque) and v.sort == "Unk":
+            raise Unsupported("attribute .%s of a value nothing is known about (a havocked field no class spec declares)" % attr)
         if isinstance(v, (View, Tup, Str, Opaque)):
             return [(s, Fun("method", recv=v, name=attr))]
         if isinstance(v, Fun) and v.kind == "super":
@@ -1230,6 +1266,14 @@ class Interp(object):
             return [(s, Fun("classattr", cls=v.name, name=attr))]
         if isinstance(v, Fun) and v.kind == "external" and v.mod == "sys" and v.name == "version_info" and attr == "major":
             return [(s, Num(I(3)))]      # python-2 branches are folded away (DESIGN 2.4 item 8)
+        if isinstance(v, Fun) and v.kind == "external" and not v.mod.startswith("lena"):
+            # a name inside a third-party module reached through an attribute (jinja2.exceptions.UndefinedError): still an
+            # external name; what can be done with it is decided where it is used (call: no library contract -> refused;
+            # except clause: stmts.handler_classes)
+            lib = self.contracts.lib.get(("%s.%s" % (v.mod, v.name), attr))
+            if lib is not None:
+                return [(s, lib if not callable(lib) else Fun("lib", name=attr, mod="%s.%s" % (v.mod, v.name), impl=lib))]
+            return [(s, Fun("external", name=attr, mod="%s.%s" % (v.mod, v.name)))]
         raise Unsupported("attribute %s of %r" % (attr, v))
 
     def const_sv(self, pyval):
@@ -1282,6 +1326,13 @@ class Interp(object):
             if type(cell).__name__ == "IterLstCell":
                 from .lib_sib import iterlst_index
                 return iterlst_index(self, s, cell, v, i)
+            if isinstance(cell, ObjCell) and not v.path and not self.spec_mode and cell.cls != "$file":
+                # obj[i] on an instance of a repository class: python calls type(obj).__getitem__(obj, i)
+                k = self.contracts.find_method(cell.cls, "__getitem__")
+                if k is None:
+                    raise Unsupported("subscript of an instance of %s: no contract for __getitem__" % cell.cls)
+                from .calls import apply_contract
+                return apply_contract(self, s, k, [v, i], {})
             if isinstance(cell, PyDictCell):
                 if isinstance(i, Str):
                     if i.s in cell.items:
@@ -1414,6 +1465,18 @@ class Interp(object):
         if (isinstance(v, Opaque) and v.sort in ("Key", "Val")) or (isinstance(v, Ref) and isinstance(s.heap[v.cid], ValCell)):
             # s[n:] of a symbolic string (a context item must be a string: obligation), n a non-negative literal
             k0 = lit_int(self.num(lo)) if lo is not None and not isinstance(lo, NoneV) else None
+            if k0 is None and lo is not None and isinstance(lo, Num) and lo.sort == "Int" and (hi is None or isinstance(hi, NoneV)):
+                # s[n:] with a computed n: the same uninterpreted function of the string and n (nothing is assumed about
+                # it, so whatever python does for this n -- also a negative one -- is one of its interpretations)
+                from .lib import str_operand
+                f = self.reg.ufun("ktail", ["Key", "Int"], "Key")
+                return Opaque(T("(%s %s %s)" % (f, self.key_term(str_operand(self, s, v, "slicing")).s, lo.t.s), "Key"))
+            h0 = lit_int(self.num(hi)) if hi is not None and not isinstance(hi, NoneV) and isinstance(hi, Num) else None
+            if k0 is not None and h0 is not None and isinstance(v, Opaque) and v.sort == "Key":
+                # s[lo:hi] of a symbolic string with literal bounds (also negative ones): an uninterpreted function of the
+                # string and the two bounds (nothing is assumed about it)
+                f = self.reg.ufun("kslice", ["Key", "Int", "Int"], "Key")
+                return Opaque(T("(%s %s %s %s)" % (f, v.t.s, I(k0).s, I(h0).s), "Key"))
             if k0 is None or k0 < 0 or not (hi is None or isinstance(hi, NoneV)):
                 raise Unsupported("slice of a symbolic string other than s[n:]")
             from .lib import str_operand, symstr_tail
@@ -1484,7 +1547,8 @@ class Interp(object):
         except Unsupported as ex:
             # an item expression that forks (e.g. get_data_context of an abstract flow value: pair or bare data) over a
             # list of concrete length: the items are evaluated one after the other, every alternative in its own state
-            if "forks in a non-forking context" not in str(ex) or self.spec_mode:
+            if ("forks in a non-forking context" not in str(ex)
+                    and "comprehension filter with symbolic condition over concrete list" not in str(ex)) or self.spec_mode:
                 raise
             del self.vcs[n_vcs:]
             del self._exc_out[n_exc:]
@@ -1506,7 +1570,7 @@ class Interp(object):
         """[elt for target in <sequence of concrete length>] where evaluating elt forks: list of (state, new list), one per
         combination of alternatives (python's order: item by item, each in the state the previous one left); None when
         the comprehension is not of this form"""
-        if len(e.generators) != 1 or e.generators[0].is_async or e.generators[0].ifs:
+        if len(e.generators) != 1 or e.generators[0].is_async:
             return None
         g = e.generators[0]
         itv = self.ev1(g.iter, st)
@@ -1522,13 +1586,36 @@ class Interp(object):
             for s, items in alts:
                 saved = {n: s.env[n] for n in names if n in s.env}
                 self.bind_target(g.target, x, s)
-                for s2, v in self.ev(e.elt, s):
+
+                def unbind(s2):
                     for n in names:             # the loop variable is local to the comprehension
                         if n in saved:
                             s2.env[n] = saved[n]
                         else:
                             s2.env.pop(n, None)
-                    nxt.append((s2, items + [v]))
+                # the filters `if c1 if c2 ...` (python: left to right, the item is kept iff every one is true): a
+                # condition that is not decided here forks the state
+                kept = [s]
+                for cnd in g.ifs:
+                    kept2 = []
+                    for sk in kept:
+                        for sc, cv in self.ev(cnd, sk):
+                            ct = self.truth(sc, cv)
+                            if ct.s == "true":
+                                kept2.append(sc)
+                            elif ct.s == "false":
+                                unbind(sc)
+                                nxt.append((sc, items))
+                            else:
+                                drop = sc.fork(NOT(ct), "cf.")
+                                unbind(drop)
+                                nxt.append((drop, items))
+                                kept2.append(sc.fork(ct, "ck."))
+                    kept = kept2
+                for sk in kept:
+                    for s2, v in self.ev(e.elt, sk):
+                        unbind(s2)
+                        nxt.append((s2, items + [v]))
             alts = nxt
             if len(alts) > self.max_paths:
                 raise Unsupported("path explosion in a list comprehension")
@@ -1565,7 +1652,19 @@ class Interp(object):
                     continue
                 if c.s != "true":
                     raise Unsupported("comprehension filter with symbolic condition over concrete list")
-                items.append(self.ev1(e.elt, s2))
+                res = self.ev(e.elt, s2)
+                if len(res) != 1:
+                    raise Unsupported("expression forks in a non-forking context: " + ast.dump(e.elt)[:80])
+                items.append(res[0][1])
+                sx = res[0][0]
+                if sx is not s2:
+                    # the evaluation ended in another state object (a called lambda / inlined helper continues in a copy):
+                    # what it created lives there.  If it also CHANGED something that existed (an iterator advanced, a list
+                    # appended to), the items must be evaluated one after the other in the real state (listcomp_forking)
+                    if any(sx.heap.get(cid) is not cell for cid, cell in s2.heap.items()) \
+                            or any(k.startswith("$") and sx.env.get(k) is not s2.env.get(k) for k in set(sx.env) | set(s2.env)):
+                        raise Unsupported("expression forks in a non-forking context: " + ast.dump(e.elt)[:80])
+                    s2 = sx
                 # objects the item expression created and facts it established live on (the scratch state s2 only
                 # keeps the binding of the loop variable apart)
                 for cid, cell in s2.heap.items():
@@ -1573,6 +1672,10 @@ class Interp(object):
                         st.heap[cid] = cell
                 for h in s2.pc[len(st.pc):]:
                     st.pc.append(h)
+                for nk in ("$clock", "$alloc_init", "$new_objs"):
+                    # the ghost allocation clock (histlib): objects the next item allocates are allocated AFTER these
+                    if nk in s2.notes:
+                        st.notes[nk] = s2.notes[nk]
             return self.items_view(items)
         if g.ifs:
             raise Unsupported("filtering comprehension over symbolic sequence")
@@ -1580,13 +1683,34 @@ class Interp(object):
         def get(i):
             s2, _ = body(i)
             from .histlib import freeze_new      # a list the item expression creates: immutable snapshot of its items
-            return freeze_new(self, st, s2, self.ev1(e.elt, s2))
+            self.item_eval = getattr(self, "item_eval", 0) + 1      # (an item of a sequence of symbolic length: see calls.apply_contract, get_context / get_data)
+            try:
+                res = self.ev(e.elt, s2)
+            finally:
+                self.item_eval -= 1
+            if len(res) > 1:
+                from .calls import merge_pure_outcomes      # (see get2)
+                from .lib_sib import merge_scalar_outcomes
+                res = merge_pure_outcomes(self, s2, res) or merge_scalar_outcomes(self, s2, res) or res
+            if len(res) != 1:
+                raise Unsupported("expression forks in a non-forking context: " + ast.dump(e.elt)[:80])
+            return freeze_new(self, st, res[0][0], res[0][1])
 
         def get2(i):
             # the element together with the (throw-away) state it was evaluated in: cells it creates live only there
             # (the state the evaluation ENDS in: a called lambda / inlined helper continues in a copy of s2)
             s2, _ = body(i)
-            res = self.ev(e.elt, s2)
+            self.item_eval = getattr(self, "item_eval", 0) + 1
+            try:
+                res = self.ev(e.elt, s2)
+            finally:
+                self.item_eval -= 1
+            if len(res) > 1:
+                # alternatives that differ only in path condition and value (a helper that tells a (data, context) pair
+                # from bare data): one outcome, the value an if-then-else of the alternatives
+                from .calls import merge_pure_outcomes
+                from .lib_sib import merge_scalar_outcomes
+                res = merge_pure_outcomes(self, s2, res) or merge_scalar_outcomes(self, s2, res) or res
             if len(res) != 1:
                 raise Unsupported("expression forks in a non-forking context: " + ast.dump(e.elt)[:80])
             return res[0][1], res[0][0]
